@@ -34,8 +34,31 @@ def T(x):
             return new_mutable(x["__mut__"])
         if "__amb__" in x:
             return Amb(x["__amb__"])
+        if "__lazy__" in x:
+            return Lazy(x["__lazy__"])
         return {k: T(v) for k, v in x.items()}
     return x
+
+
+class Lazy:
+    """A DATA value that happens to be awaitable (a lazy handle / future-like object).  A node that returns it hands the object
+    itself to its consumers under either runner; nobody is entitled to resolve it."""
+
+    def __init__(self, tag):
+        self.tag = tag
+
+    def __await__(self):
+        yield from ()
+        return self.tag * 1000  # resolves to another value: visible if anybody awaits it
+
+    def __eq__(self, other):
+        return isinstance(other, Lazy) and other.tag == self.tag
+
+    def __hash__(self):
+        return hash(("Lazy", self.tag))
+
+    def __repr__(self):
+        return f"Lazy({self.tag})"
 
 
 class Amb:
